@@ -9,6 +9,7 @@ files.  Exit-2 class errors are raised as AnalysisIncomplete.
 import hashlib
 import json
 import os
+import time
 import re
 import subprocess
 import sys
@@ -175,8 +176,11 @@ def extract(config="NDEBUG", only=None, extra_sources=None):
             if p not in keep and fn.endswith(".json"):
                 stem = fn.rsplit(".", 2)[0]
                 if any(os.path.basename(k).rsplit(".", 2)[0] == stem for k in keep):
+                    # only entries that have not been touched for an hour: a concurrent run on
+                    # another tree (self-test scratch copies) may still need its own
                     try:
-                        os.remove(p)
+                        if time.time() - os.path.getmtime(p) > 3600:
+                            os.remove(p)
                     except OSError:
                         pass
     return out
